@@ -122,6 +122,24 @@ def shard(acc, tier, idx, n):
                     line = f'    "{text}"'
                     files = {'main.asm': wrap(('rawbytes', line, data + [tbyte]))}
                     run_c11(acc, params, isa_emb, files, 'embedded', (term, chars, 'emb') if special else None, text, ctr)
+    # ---- a label in front of a string datum whose text contains the label's own text (only the first `name:` is the label) -----------
+    params = R.Params(address_size=16, endian='little')
+    for term in (None, 3):
+        isa = probe_isa(16, 'little', cstr_terminator=term, embedded_strings=True)
+        tb = 0 if term is None else term
+        for lab, text in itertools.product(('e', 'msg', '_f9', '.q'), ('{L}: x', 'the: {L}: end {L}:', 'a{L}:b', '{L}', ':{L}: :')):
+            t = text.replace('{L}', lab)
+            data = [ord(c) for c in t]
+            for directive, body in (('.byte', data), ('.cstr', data + [tb]), ('.asciiz', data + [tb]), ('', data + [tb])):
+                ctr += 1
+                if ctr % n != idx:
+                    continue
+                pre = [] if lab != '.q' else [('label', 'gq')]
+                line = f'{lab}: {directive} "{t}"'.replace(':  "', ': "')
+                files = {'main.asm': [('const', 'BK', 7), ('data', 1, [0x99, 0x98, 0x97])] + pre +
+                         [('rawbytes', line, body), ('label', 'L'), ('data', 1, [0xEE])]}
+                run_c11(acc, params, isa, files, 'string' if directive == '.byte' else 'cstr' if directive else 'embedded',
+                        ('labelled', term, lab, text, directive), t, ctr)
     # ---- the same expression text in different label scopes (local regions, files) -----------------------
     for endian in ('little', 'big'):
         params = R.Params(address_size=16, endian=endian)
